@@ -46,6 +46,7 @@ import signal
 import sys
 import time
 import traceback
+import zlib
 
 from harness import core
 from harness.core import coq_str
@@ -76,7 +77,7 @@ MANIFEST = {
 
 IMPORTS = ['Model.Jv', 'Model.Slice', 'Model.Norm', 'Model.Schema', 'Model.Build', 'Gen.Schemas']
 DOC_LIMIT_S = 10          # per-document time limit of the oracle (documents are <= ~8 KB)
-MAX_MODEL_TEXT = 6000     # documents larger than this go through the oracle only
+MAX_MODEL_TEXT = 4000     # documents larger than this go through the oracle only
 
 _B = {}
 
@@ -952,7 +953,7 @@ CORPUS = [
     ('wf', _WF + '  output:\n    a: "{{ ' + '(' * 2000 + '1' + ')' * 2000 + ' }}"\n', 'crash'),
     ('wf', _WF + '  output:\n    a: <% ' + '(' * 2000 + '1' + ')' * 2000 + ' %>\n', 'accept'),
     # D10 deep nesting that the YAML loader survives
-    ('wf', _WF + '  output:\n    a: ' + '[' * 400 + ']' * 400 + '\n', 'crash'),
+    ('wf', _WF + 'deep: ' + '[' * 400 + ']' * 400 + '\n', 'crash'),
     # hardened loader: anchors / aliases / tags are definition errors
     ('wf', _WF + '  output: &a\n    a: 1\n  vars: *a\n', 'dsl'),
     ('wf', _WF + '  output:\n    a: !!python/object/apply:os.system [x]\n', 'dsl'),
@@ -969,6 +970,19 @@ CORPUS = [
     ('wf', _WF + "      retry: [1]\n", 'dsl'),
     ('wf', "version: '2.0'\nwf:\n  task-defaults:\n    retry: count=2 delay=1\n    on-error: fail\n  tasks:\n    t1:\n      action: std.noop\n", 'accept'),
     ('wf', _WF + "      on-success:\n        t1x: <% $.x %>\n", 'accept'),
+    # guards that must hold (each is what a self-test mutation breaks)
+    ('wf', _WF + "      retry:\n        count: 1\n", 'dsl'),
+    ('wf', _WF + "      on-success: [{}]\n", 'dsl'),
+    ('wf', _WF + "      on-success:\n        - t1: <% $.x %>\n        - {}\n", 'dsl'),
+    ('wf', "version: '2.0'\nwf:\n  tasks:\n    t1:\n      type: reverse\n      action: std.noop\n      on-success: t2\n    t2:\n      join: all\n", 'accept'),
+    ('wf', "version: '2.0'\nwf:\n  type: reverse\n  tasks:\n    t1:\n      type: direct\n      action: std.noop\n    t2:\n      requires: [t1]\n", 'accept'),
+    ('wf', "version: '2.0'\nwf:\n  tasks:\n    t1: [a]\n    t2:\n      action: std.noop\n", 'dsl'),
+    ('wb', "version: '2.0'\nname: wb\nactions:\n  a1: abc\n", 'dsl'),
+    ('wb', "version: '2.0'\nname: wb\nworkflows:\n  w1: abc\n", 'dsl'),
+    # aliases are not expanded (a "billion laughs" document is a definition error, quickly)
+    ('wf', "version: '2.0'\na: &a [x, x, x, x, x, x, x, x]\nb: &b [*a, *a, *a, *a, *a, *a, *a, *a]\nc: &c [*b, *b, *b, *b, *b, *b, *b, *b]\n"
+           "d: &d [*c, *c, *c, *c, *c, *c, *c, *c]\ne: &e [*d, *d, *d, *d, *d, *d, *d, *d]\nf: &f [*e, *e, *e, *e, *e, *e, *e, *e]\n"
+           "g: &g [*f, *f, *f, *f, *f, *f, *f, *f]\nwf:\n  tasks:\n    t1:\n      action: std.noop\n  output:\n    o: *g\n", 'dsl'),
     # F3 slicing: a task named like a later workflow
     ('wb', "version: '2.0'\nname: wb\nworkflows:\n  wf1:\n    tasks:\n      wf2:\n        action: std.noop\n  wf2:\n    tasks:\n      t:\n        action: std.echo output=1\n", 'accept'),
     ('wb', "version: '2.0'\nname: wb\ndescription: 'my workflows: are here'\nworkflows:\n  wf1:\n    tasks:\n      t:\n        action: std.noop\n", 'accept'),
@@ -1106,7 +1120,7 @@ def process_doc(ctx, kind, text, origin, walk_batch, norm_batch, stats, expect=N
         return r
     stats['model']['walk'] += 1
     walk_batch.add(we, {'kind': kind, 'text': text, 'real': {'verdict': r['verdict'], 'trace': r['trace'], 'sig': r['sig']}})
-    if r['verdict'] == 'accept':
+    if r['verdict'] == 'accept' and (origin == 'corpus' or ctx.thorough() or zlib.crc32(text.encode()) % 100 < 55):
         try:
             ne = norm_expr(kind, raw0, r['spec'].to_dict())
             norm_batch.add(ne, {'kind': kind, 'text': text})
